@@ -6,7 +6,7 @@ LEVEL = "exploration"
 MANIFEST = {
     "engine": "tlc ObjFile rows + vhpack c01 + git hash-object/cat-file",
     "technique": "TLC enumerates entry point x type x object format x content class (writing) and header/body mutations (reading) of spec/rules/ObjFile.tla with the header tokens, fan-out placement and read verdict; each row is executed through the real go-git entry point on a directory that git also reads (hash-object, cat-file --batch) and, conversely, git-written objects are read through go-git",
-    "text": "204 writing rows: {SetEncodedObject, RawObjectWriter, LazyWriter, Worktree.Add, ObjectHasher/MemoryObject} x {blob,tree,commit,tag} x {sha1,sha256} x {empty, 1 byte, NUL-containing, 'blob 3\\0'-prefixed, 70 KB (> LargeObjectThreshold), 1 MiB}; 96 reading rows: 16 header/body mutations x 3 contents x 2 formats, read with LargeObjectThreshold 0 and 64 KiB; every git-written object read back by go-git.",
+    "text": "348 writing rows: {SetEncodedObject, RawObjectWriter, LazyWriter, Worktree.Add, ObjectHasher/MemoryObject, and SetEncodedObject / LazyWriter / read-back of git-written objects on one live Storage handle switched with SetObjectFormat after creation} x {blob,tree,commit,tag} x {sha1,sha256} x {empty, 1 byte, NUL-containing, 'blob 3\\0'-prefixed, 70 KB (> LargeObjectThreshold), 1 MiB}; 96 reading rows: 16 header/body mutations x 3 contents x 2 formats, read with LargeObjectThreshold 0 and 64 KiB; every git-written object read back by go-git.",
     "note": "Honest limit: the TLA+ spec treats the digest H and zlib as uninterpreted; that go-git's SHA-1/SHA-256 and zlib agree with git's is decided by git itself (hash-object computes the expected id, cat-file reads go-git's files), i.e. by testing over the enumerated rows, not by the model. Length-rule mutations (size+-1, trailing garbage) are 'lenient': git cat-file's streaming path accepts them, so nothing is asserted. Contents of non-blob types are arbitrary bytes (--literally).",
 }
 
@@ -30,7 +30,7 @@ def run(ctx):
             f.write(json.dumps(row) + "\n")
     ctx.vh("c01", [p], pkg="vhpack", timeout=1800)
     ctx.cov["traces_validated_against_impl"] = len(rows)
-    ctx.cov["bounds"] = {"rows": len(rows), "entry_points": 5, "types": 4, "formats": 2, "content_classes": 6, "read_mutations": 16}
+    ctx.cov["bounds"] = {"rows": len(rows), "entry_points": 8, "types": 4, "formats": 2, "content_classes": 6, "read_mutations": 16}
     ctx.cov["exhaustive"] = True
     ctx.cov["rule"] = "one case = one ObjFile row (a TLC state); the content bytes of a row are salted by row number and seed so that rows do not collide; both tiers run the whole table"
     ctx.assumptions += ["digest and zlib equality are delegated to git (hash-object / cat-file on the same directory)",
